@@ -160,6 +160,9 @@ def classify(stderr):
         fr = re.findall(r"#\d+ \S+ in (\w+)", stderr)
         fr = [f for f in fr if not f.startswith(("__", "_start", "main")) or f == "main"]
         return "asan:%s:%s" % (m.group(1) if m else "?", fr[1] if len(fr) > 1 and fr[0].startswith(("str", "mem", "sprintf", "vsprintf", "printf", "__interceptor")) else (fr[0] if fr else "?"))
+    # `p + 0` with a null p (an empty array's begin and end) is reported by clang's pointer-overflow check; it touches no memory
+    # and is outside what the property speaks about
+    stderr = "\n".join(l for l in stderr.splitlines() if "applying zero offset to null pointer" not in l)
     if "runtime error" in stderr:
         m = re.search(r"(\w+\.[ch]):(\d+):\d+: runtime error: ([^\n]{0,60})", stderr)
         return "ubsan:%s:%s" % (m.group(1), re.sub(r"[0-9x]+", "N", m.group(3)).strip().replace(" ", "_")[:40]) if m else "ubsan:?"
@@ -180,7 +183,12 @@ def main():
             raise common.MachineryError("shape modules rejected by WasmValid: %s" % dict(list(bad.items())[:3]))
         jobs = []
         # the all-sections module is swept a second time with every LEB128 field padded to its maximum length
-        mods = mods + [("allsections-padded", dict([m_ for n_, m_ in mods if n_ == "allsections"][0], **{"__choices": {"padall": 1}}))]
+        base_all = [m_ for n_, m_ in mods if n_ == "allsections"][0]
+        mods = mods + [("allsections-padded", dict(base_all, **{"__choices": {"padall": 1}})),
+                       # custom sections with an empty name, a one-letter name, a long name, with and without content, first, between and last
+                       ("allsections-customs", dict(base_all, **{"__choices": {"custom": [{"at": 0, "name": "", "payload": []}, {"at": 2, "name": "", "payload": [1, 2, 3]},
+                                                                                          {"at": 5, "name": "x", "payload": []}, {"at": 7, "name": "n" * 300, "payload": [0] * 40},
+                                                                                          {"at": 99, "name": "", "payload": []}]}}))]
         for name, m in mods:
             ch = m.get("__choices")
             if ch:
@@ -203,6 +211,15 @@ def main():
                 cuts = sorted(rng.sample(cuts, 40))
             for c in cuts:
                 jobs.append((name, data[:c], c, "prefix", rng.choice(option_vectors(rng, nfuncs, "quick")[:3]), "plain"))
+            if name == "allsections":
+                # the reference module of -r is read by the same reader: complete (the run must succeed), truncated at every byte,
+                # not a module at all, missing (a diagnostic or success, never a memory error)
+                ov = {"t": 2, "f": 1, "p": False, "g": False, "m": False, "d": "arrays", "c": False}
+                jobs.append((name, data, len(data), "valid", dict(ov, ref=data), "plain"))
+                for c in range(0, len(data), 1 if tier != "quick" else 3):
+                    jobs.append((name, data, c, "prefix", dict(ov, ref=data[:c], g=c % 2 == 0), "plain"))
+                jobs.append((name, data, -1, "prefix", dict(ov, ref=b"\x7fELF not a module"), "plain"))
+                jobs.append((name, data, -2, "prefix", dict(ov, ref=None, refmissing=True), "plain"))
 
         def one(j):
             name, data, cut, cls, o, form = jobs[j]
@@ -212,8 +229,15 @@ def main():
             open(inp, "wb").write(data)
             outarg = {"plain": "out.c", "dotdir": "./x/out.c", "abs": os.path.join(d, "x", "out.c"), "nested": "x/y/out.c"}[form]
             res = []
+            refargs = []
+            if o.get("ref") is not None:
+                open(os.path.join(d, "ref.wasm"), "wb").write(o["ref"])
+                refargs = ["-r", "ref.wasm"]
+            elif o.get("refmissing"):
+                refargs = ["-r", "no-such-file.wasm"]
+            o = {k_: v_ for k_, v_ in o.items() if k_ not in ("ref", "refmissing")}
             for exe, kind in ((san, "san"), (plain, "plain")):
-                rc, so, se = run([exe] + argv_of(o) + [inp, outarg], cwd=d, timeout=300,
+                rc, so, se = run([exe] + argv_of(o) + refargs + [inp, outarg], cwd=d, timeout=300,
                                  env={"ASAN_OPTIONS": "detect_leaks=0:exitcode=99:allocator_may_return_null=1", "UBSAN_OPTIONS": "print_stacktrace=1:exitcode=98"})
                 res.append({"cls": cls, "status": rc if 0 <= rc < 98 else (0 if rc in (98, 99) else 255), "signal": -rc if -64 < rc < 0 else 0,
                             "timedout": rc == -999, "diagnostic": bool(re.sub(r"==\d+==.*", "", se, flags=re.S).strip()) if rc not in (98, 99) else True,
